@@ -113,6 +113,23 @@ func zzFileReadAt(f *os.File, b []byte, off int64) (int, error) {
 	return n, nil
 }
 
+// sequential read at the file offset (advances it), like read(2)
+func zzFileRead(f *os.File, b []byte) (int, error) {
+	x := zzFindHandle(f)
+	if x == nil || x.closed {
+		return 0, errors.New("read: file closed")
+	}
+	if len(b) == 0 {
+		return 0, nil
+	}
+	if x.off >= int64(len(x.f.data)) {
+		return 0, io.EOF
+	}
+	n := copy(b, x.f.data[x.off:])
+	x.off += int64(n)
+	return n, nil
+}
+
 func zzFileSeek(f *os.File, offset int64, whence int) (int64, error) {
 	x := zzFindHandle(f)
 	if x == nil || x.closed {
@@ -216,8 +233,14 @@ func ZZ_C06_FileStore() {
 	zzsym.Assert(err == nil && store2 != nil, "the hash file reopens for the saved tree size")
 	tree2 := NewTree(savedSize, savedHashes, store2)
 	zzsym.Assert(tree2.Root() == zzMTH(leaves[:saved]), "reloaded tree has the root of the saved tree")
+	// a node serves proof queries between two blocks: reads of the hash file interleaved with appends
+	probe := zzsym.Choose("probe", 2) == 1
 	for i := saved; i < size; i++ {
 		tree2.Append(leaves[i])
+		if probe && tree2.TreeSize() > 1 {
+			tree2.InclusionProof(0, tree2.TreeSize())
+			zzsym.Cover("file-read-between-appends")
+		}
 	}
 	zzsym.Assert(tree2.Root() == zzMTH(leaves) && tree2.TreeSize() == uint32(size), "reloaded tree has the same future roots")
 	fs := store2.(*fileHashStore)
